@@ -133,7 +133,7 @@ let run_admit (parts : string list) : string =
   let name o = match o with
     | OAccepted -> "ACCEPT" | OConnClosed -> "CLOSED" | OAnswered -> "ANS" | ORefused -> "REFUSED"
     | O503 -> "503" | OStreamClosed -> "SCLOSED" in
-  let do_step e = let (r', o) = admit_step !r Z0 e in r := r'; o in
+  let do_step e = let (r', o) = listener_step !r Z0 e in r := r'; o in
   let query l a =
     (* connection-oriented listeners: the connection cost is charged when the client's connection is opened *)
     let key = (l, c15_fmt_addr a) in
